@@ -43,6 +43,12 @@ CONSTANTS Requests,      \* sequence of connection requests [seat, team, version
           , EndAnnounce  \* "after-close": "End of session" is queued once the log is closed
                          \* (the code since the F2 repair); "before-close": queued first
                          \* (regression configuration, seeded change C08-r4m2)
+          , RelayImpl    \* "main": the main thread passes every call on to the other three
+                         \* seats (the code): every queue has ONE producer.  "seat": the
+                         \* acting seat's thread puts its call into the other seats' queues
+                         \* itself (regression configuration, seeded change C09-r8m1): those
+                         \* queues then have two producers and the order of their items
+                         \* depends on the schedule
 
 NoFault == [board |-> 0, phase |-> "none", index |-> 0]
 \* a free seat of the table (the code's None); "" is a team name like any other
@@ -291,7 +297,7 @@ IsFault(b, phase, idx) == Fault.board = b /\ Fault.phase = phase /\ Fault.index 
                           IF s = auc.active THEN MIllegal ELSE MError)];
             goto m_raise;
           } else {
-            toSeat := PutTo(toSeat, Others(auc.active), msg);
+            if (RelayImpl = "main") { toSeat := PutTo(toSeat, Others(auc.active), msg); };
             auc := A!Step(auc, msg.call).st;
           };
         };
@@ -375,7 +381,8 @@ IsFault(b, phase, idx) == Fault.board = b /\ Fault.phase = phase /\ Fault.index 
 
   fair process (Req \in Reqs)
     variables seat = Requests[self].seat, rq = Requests[self], msg = MNull, bn = 1, act = 0,
-              myturn = FALSE, ncalls = 0, declr = 0, tr = 1, i = 0, cardk = 0, isdummy = FALSE;
+              myturn = FALSE, ncalls = 0, declr = 0, tr = 1, i = 0, cardk = 0, isdummy = FALSE,
+              fw = 1;
   {
    p_begin:
     await started[self];
@@ -432,13 +439,21 @@ IsFault(b, phase, idx) == Fault.board = b /\ Fault.phase = phase /\ Fault.index 
         fromSeat[seat] := Append(fromSeat[seat],
                                  IF IsFault(bn, "auction", ncalls) THEN MBad
                                  ELSE MCall(seat, Script[bn].calls[ncalls]));
-        goto p_turn;
+        if (RelayImpl = "seat") { fw := 1; goto p_fwd; } else { goto p_turn; };
       };
     };
    p_relay:                                      \* (recv "ready for X's bid")
     await toSeat[seat] # <<>>;
     sent[self] := Append(sent[self], Head(toSeat[seat]));
     toSeat[seat] := Tail(toSeat[seat]);
+    goto p_turn;
+   p_fwd:                                        \* (regression only: a second producer)
+    while (fw <= 3) {
+      toSeat[(seat + fw) % 4] := Append(toSeat[(seat + fw) % 4],
+                                        IF IsFault(bn, "auction", ncalls) THEN MBad
+                                        ELSE MCall(seat, Script[bn].calls[ncalls]));
+      fw := fw + 1;
+    };
     goto p_turn;
    p_po:
     await toSeat[seat] # <<>>;
@@ -500,7 +515,7 @@ IsFault(b, phase, idx) == Fault.board = b /\ Fault.phase = phase /\ Fault.index 
 }
 ***************************************************************************)
 \* BEGIN TRANSLATION
-\* Process variable msg of process Main at line 237 col 78 changed to msg_
+\* Process variable msg of process Main at line 243 col 78 changed to msg_
 CONSTANT defaultInitValue
 VARIABLES pc, table, backlog, ev, bar, evSync, evSeat, toSeat, fromSeat, sent, 
           closed, started, finished, threads, log, logState, aborted, 
@@ -514,13 +529,13 @@ PutTo(q, S, msg) == [s \in Seats |-> IF s \in S THEN Append(q[s], msg) ELSE q[s]
 
 VARIABLES me, waitfor, cur, alive, b, auc, ply, msg_, j, trick, ci, played, 
           nc, seat, rq, msg, bn, act, myturn, ncalls, declr, tr, i, cardk, 
-          isdummy
+          isdummy, fw
 
 vars == << pc, table, backlog, ev, bar, evSync, evSeat, toSeat, fromSeat, 
            sent, closed, started, finished, threads, log, logState, aborted, 
            interrupted, stack, me, waitfor, cur, alive, b, auc, ply, msg_, j, 
            trick, ci, played, nc, seat, rq, msg, bn, act, myturn, ncalls, 
-           declr, tr, i, cardk, isdummy >>
+           declr, tr, i, cardk, isdummy, fw >>
 
 ProcSet == {0} \cup {-1} \cup (Reqs)
 
@@ -571,6 +586,7 @@ Init == (* Global variables *)
         /\ i = [self \in Reqs |-> 0]
         /\ cardk = [self \in Reqs |-> 0]
         /\ isdummy = [self \in Reqs |-> FALSE]
+        /\ fw = [self \in Reqs |-> 1]
         /\ stack = [self \in ProcSet |-> << >>]
         /\ pc = [self \in ProcSet |-> CASE self = 0 -> "m_accept"
                                         [] self = -1 -> "op_interrupt"
@@ -594,7 +610,7 @@ ss_enter(self) == /\ pc[self] = "ss_enter"
                                   me, waitfor, cur, alive, b, auc, ply, msg_, 
                                   j, trick, ci, played, nc, seat, rq, msg, bn, 
                                   act, myturn, ncalls, declr, tr, i, cardk, 
-                                  isdummy >>
+                                  isdummy, fw >>
 
 ss_wait(self) == /\ pc[self] = "ss_wait"
                  /\ bar.state = 1
@@ -605,7 +621,7 @@ ss_wait(self) == /\ pc[self] = "ss_wait"
                                  interrupted, stack, me, waitfor, cur, alive, 
                                  b, auc, ply, msg_, j, trick, ci, played, nc, 
                                  seat, rq, msg, bn, act, myturn, ncalls, declr, 
-                                 tr, i, cardk, isdummy >>
+                                 tr, i, cardk, isdummy, fw >>
 
 ss_exit(self) == /\ pc[self] = "ss_exit"
                  /\ bar' = [count |-> bar.count - 1, state |-> IF bar.count = 1 THEN 0 ELSE bar.state]
@@ -617,7 +633,8 @@ ss_exit(self) == /\ pc[self] = "ss_exit"
                                  threads, log, logState, aborted, interrupted, 
                                  waitfor, cur, alive, b, auc, ply, msg_, j, 
                                  trick, ci, played, nc, seat, rq, msg, bn, act, 
-                                 myturn, ncalls, declr, tr, i, cardk, isdummy >>
+                                 myturn, ncalls, declr, tr, i, cardk, isdummy, 
+                                 fw >>
 
 sf_wait(self) == /\ pc[self] = "sf_wait"
                  /\ IF evSync.flag
@@ -631,7 +648,7 @@ sf_wait(self) == /\ pc[self] = "sf_wait"
                                  stack, me, waitfor, cur, alive, b, auc, ply, 
                                  msg_, j, trick, ci, played, nc, seat, rq, msg, 
                                  bn, act, myturn, ncalls, declr, tr, i, cardk, 
-                                 isdummy >>
+                                 isdummy, fw >>
 
 sf_wake(self) == /\ pc[self] = "sf_wake"
                  /\ self \in evSync.notified
@@ -643,7 +660,7 @@ sf_wake(self) == /\ pc[self] = "sf_wake"
                                  stack, me, waitfor, cur, alive, b, auc, ply, 
                                  msg_, j, trick, ci, played, nc, seat, rq, msg, 
                                  bn, act, myturn, ncalls, declr, tr, i, cardk, 
-                                 isdummy >>
+                                 isdummy, fw >>
 
 sf_clear(self) == /\ pc[self] = "sf_clear"
                   /\ evSeat' = [evSeat EXCEPT ![me[self]] = FALSE]
@@ -656,7 +673,7 @@ sf_clear(self) == /\ pc[self] = "sf_clear"
                                   waitfor, cur, alive, b, auc, ply, msg_, j, 
                                   trick, ci, played, nc, seat, rq, msg, bn, 
                                   act, myturn, ncalls, declr, tr, i, cardk, 
-                                  isdummy >>
+                                  isdummy, fw >>
 
 SyncSeat(self) == ss_enter(self) \/ ss_wait(self) \/ ss_exit(self)
                      \/ sf_wait(self) \/ sf_wake(self) \/ sf_clear(self)
@@ -677,7 +694,7 @@ sm_enter(self) == /\ pc[self] = "sm_enter"
                                   stack, me, waitfor, cur, alive, b, auc, ply, 
                                   msg_, j, trick, ci, played, nc, seat, rq, 
                                   msg, bn, act, myturn, ncalls, declr, tr, i, 
-                                  cardk, isdummy >>
+                                  cardk, isdummy, fw >>
 
 sm_wait(self) == /\ pc[self] = "sm_wait"
                  /\ bar.state = 1
@@ -688,7 +705,7 @@ sm_wait(self) == /\ pc[self] = "sm_wait"
                                  interrupted, stack, me, waitfor, cur, alive, 
                                  b, auc, ply, msg_, j, trick, ci, played, nc, 
                                  seat, rq, msg, bn, act, myturn, ncalls, declr, 
-                                 tr, i, cardk, isdummy >>
+                                 tr, i, cardk, isdummy, fw >>
 
 sm_exit(self) == /\ pc[self] = "sm_exit"
                  /\ bar' = [count |-> bar.count - 1, state |-> IF bar.count = 1 THEN 0 ELSE bar.state]
@@ -700,7 +717,8 @@ sm_exit(self) == /\ pc[self] = "sm_exit"
                                  threads, log, logState, aborted, interrupted, 
                                  me, cur, alive, b, auc, ply, msg_, j, trick, 
                                  ci, played, nc, seat, rq, msg, bn, act, 
-                                 myturn, ncalls, declr, tr, i, cardk, isdummy >>
+                                 myturn, ncalls, declr, tr, i, cardk, isdummy, 
+                                 fw >>
 
 sm_flags(self) == /\ pc[self] = "sm_flags"
                   /\ IF waitfor[self] < 4
@@ -715,7 +733,7 @@ sm_flags(self) == /\ pc[self] = "sm_flags"
                                   interrupted, stack, me, cur, alive, b, auc, 
                                   ply, msg_, j, trick, ci, played, nc, seat, 
                                   rq, msg, bn, act, myturn, ncalls, declr, tr, 
-                                  i, cardk, isdummy >>
+                                  i, cardk, isdummy, fw >>
 
 sm_set(self) == /\ pc[self] = "sm_set"
                 /\ evSync' = [flag |-> TRUE, waiters |-> {}, notified |-> evSync.notified \cup evSync.waiters]
@@ -727,7 +745,7 @@ sm_set(self) == /\ pc[self] = "sm_set"
                                 threads, log, logState, aborted, interrupted, 
                                 me, cur, alive, b, auc, ply, msg_, j, trick, 
                                 ci, played, nc, seat, rq, msg, bn, act, myturn, 
-                                ncalls, declr, tr, i, cardk, isdummy >>
+                                ncalls, declr, tr, i, cardk, isdummy, fw >>
 
 SyncMain(self) == sm_enter(self) \/ sm_wait(self) \/ sm_exit(self)
                      \/ sm_flags(self) \/ sm_set(self)
@@ -745,7 +763,7 @@ m_accept == /\ pc[0] = "m_accept"
                             logState, aborted, interrupted, stack, me, waitfor, 
                             alive, b, auc, ply, msg_, j, trick, ci, played, nc, 
                             seat, rq, msg, bn, act, myturn, ncalls, declr, tr, 
-                            i, cardk, isdummy >>
+                            i, cardk, isdummy, fw >>
 
 m_start == /\ pc[0] = "m_start"
            /\ started' = [started EXCEPT ![cur] = TRUE]
@@ -755,7 +773,7 @@ m_start == /\ pc[0] = "m_start"
                            logState, aborted, interrupted, stack, me, waitfor, 
                            cur, alive, b, auc, ply, msg_, j, trick, ci, played, 
                            nc, seat, rq, msg, bn, act, myturn, ncalls, declr, 
-                           tr, i, cardk, isdummy >>
+                           tr, i, cardk, isdummy, fw >>
 
 m_ev_wait == /\ pc[0] = "m_ev_wait"
              /\ IF ev.flag
@@ -768,7 +786,7 @@ m_ev_wait == /\ pc[0] = "m_ev_wait"
                              threads, log, logState, aborted, interrupted, 
                              stack, me, waitfor, cur, alive, b, auc, ply, msg_, 
                              j, trick, ci, played, nc, seat, rq, msg, bn, act, 
-                             myturn, ncalls, declr, tr, i, cardk, isdummy >>
+                             myturn, ncalls, declr, tr, i, cardk, isdummy, fw >>
 
 m_ev_wake == /\ pc[0] = "m_ev_wake"
              /\ 0 \in ev.notified
@@ -779,7 +797,7 @@ m_ev_wake == /\ pc[0] = "m_ev_wake"
                              threads, log, logState, aborted, interrupted, 
                              stack, me, waitfor, cur, alive, b, auc, ply, msg_, 
                              j, trick, ci, played, nc, seat, rq, msg, bn, act, 
-                             myturn, ncalls, declr, tr, i, cardk, isdummy >>
+                             myturn, ncalls, declr, tr, i, cardk, isdummy, fw >>
 
 m_sleep_adm == /\ pc[0] = "m_sleep_adm"
                /\ TRUE
@@ -790,7 +808,7 @@ m_sleep_adm == /\ pc[0] = "m_sleep_adm"
                                stack, me, waitfor, cur, alive, b, auc, ply, 
                                msg_, j, trick, ci, played, nc, seat, rq, msg, 
                                bn, act, myturn, ncalls, declr, tr, i, cardk, 
-                               isdummy >>
+                               isdummy, fw >>
 
 m_alive == /\ pc[0] = "m_alive"
            /\ IF ~finished[cur]
@@ -803,7 +821,7 @@ m_alive == /\ pc[0] = "m_alive"
                            logState, aborted, interrupted, stack, me, waitfor, 
                            cur, alive, b, auc, ply, msg_, j, trick, ci, played, 
                            nc, seat, rq, msg, bn, act, myturn, ncalls, declr, 
-                           tr, i, cardk, isdummy >>
+                           tr, i, cardk, isdummy, fw >>
 
 m_ev_clear == /\ pc[0] = "m_ev_clear"
               /\ ev' = [ev EXCEPT !.flag = FALSE]
@@ -814,7 +832,7 @@ m_ev_clear == /\ pc[0] = "m_ev_clear"
                               stack, me, waitfor, cur, alive, b, auc, ply, 
                               msg_, j, trick, ci, played, nc, seat, rq, msg, 
                               bn, act, myturn, ncalls, declr, tr, i, cardk, 
-                              isdummy >>
+                              isdummy, fw >>
 
 m_b1 == /\ pc[0] = "m_b1"
         /\ stack' = [stack EXCEPT ![0] = << [ procedure |->  "SyncMain",
@@ -828,7 +846,7 @@ m_b1 == /\ pc[0] = "m_b1"
                         log, logState, aborted, interrupted, me, cur, alive, b, 
                         auc, ply, msg_, j, trick, ci, played, nc, seat, rq, 
                         msg, bn, act, myturn, ncalls, declr, tr, i, cardk, 
-                        isdummy >>
+                        isdummy, fw >>
 
 m_open == /\ pc[0] = "m_open"
           /\ logState' = "open"
@@ -838,7 +856,7 @@ m_open == /\ pc[0] = "m_open"
                           log, aborted, interrupted, stack, me, waitfor, cur, 
                           alive, b, auc, ply, msg_, j, trick, ci, played, nc, 
                           seat, rq, msg, bn, act, myturn, ncalls, declr, tr, i, 
-                          cardk, isdummy >>
+                          cardk, isdummy, fw >>
 
 m_board == /\ pc[0] = "m_board"
            /\ IF b <= NB
@@ -854,7 +872,7 @@ m_board == /\ pc[0] = "m_board"
                            logState, aborted, interrupted, stack, me, waitfor, 
                            cur, alive, b, auc, ply, msg_, j, trick, ci, played, 
                            nc, seat, rq, msg, bn, act, myturn, ncalls, declr, 
-                           tr, i, cardk, isdummy >>
+                           tr, i, cardk, isdummy, fw >>
 
 m_deal == /\ pc[0] = "m_deal"
           /\ toSeat' = [s \in Seats |-> toSeat[s] \o <<MHdr(b), MHand(s)>>]
@@ -869,7 +887,7 @@ m_deal == /\ pc[0] = "m_deal"
                           logState, aborted, interrupted, me, cur, alive, b, 
                           auc, ply, msg_, j, trick, ci, played, nc, seat, rq, 
                           msg, bn, act, myturn, ncalls, declr, tr, i, cardk, 
-                          isdummy >>
+                          isdummy, fw >>
 
 m_deal2 == /\ pc[0] = "m_deal2"
            /\ IF SyncImpl = "flags"
@@ -882,7 +900,7 @@ m_deal2 == /\ pc[0] = "m_deal2"
                            logState, aborted, interrupted, stack, me, waitfor, 
                            cur, alive, b, auc, ply, msg_, j, trick, ci, played, 
                            nc, seat, rq, msg, bn, act, myturn, ncalls, declr, 
-                           tr, i, cardk, isdummy >>
+                           tr, i, cardk, isdummy, fw >>
 
 m_b3 == /\ pc[0] = "m_b3"
         /\ stack' = [stack EXCEPT ![0] = << [ procedure |->  "SyncMain",
@@ -896,7 +914,7 @@ m_b3 == /\ pc[0] = "m_b3"
                         log, logState, aborted, interrupted, me, cur, alive, b, 
                         auc, ply, msg_, j, trick, ci, played, nc, seat, rq, 
                         msg, bn, act, myturn, ncalls, declr, tr, i, cardk, 
-                        isdummy >>
+                        isdummy, fw >>
 
 m_auction == /\ pc[0] = "m_auction"
              /\ auc' = A!InitAuction(Boards[b].dealer, Boards[b].vul)
@@ -907,7 +925,7 @@ m_auction == /\ pc[0] = "m_auction"
                              threads, log, logState, aborted, interrupted, 
                              stack, me, waitfor, cur, alive, b, ply, msg_, j, 
                              trick, ci, played, seat, rq, msg, bn, act, myturn, 
-                             ncalls, declr, tr, i, cardk, isdummy >>
+                             ncalls, declr, tr, i, cardk, isdummy, fw >>
 
 m_turn == /\ pc[0] = "m_turn"
           /\ IF ~A!Done(auc)
@@ -920,7 +938,7 @@ m_turn == /\ pc[0] = "m_turn"
                           logState, aborted, interrupted, stack, me, waitfor, 
                           cur, alive, b, auc, ply, msg_, j, trick, ci, played, 
                           nc, seat, rq, msg, bn, act, myturn, ncalls, declr, 
-                          tr, i, cardk, isdummy >>
+                          tr, i, cardk, isdummy, fw >>
 
 m_call == /\ pc[0] = "m_call"
           /\ fromSeat[auc.active] # <<>> \/ interrupted
@@ -935,14 +953,17 @@ m_call == /\ pc[0] = "m_call"
                                                  IF s = auc.active THEN MIllegal ELSE MError)]
                                 /\ pc' = [pc EXCEPT ![0] = "m_raise"]
                                 /\ auc' = auc
-                           ELSE /\ toSeat' = PutTo(toSeat, Others(auc.active), msg_')
+                           ELSE /\ IF RelayImpl = "main"
+                                      THEN /\ toSeat' = PutTo(toSeat, Others(auc.active), msg_')
+                                      ELSE /\ TRUE
+                                           /\ UNCHANGED toSeat
                                 /\ auc' = A!Step(auc, msg_'.call).st
                                 /\ pc' = [pc EXCEPT ![0] = "m_turn"]
           /\ UNCHANGED << table, backlog, ev, bar, evSync, evSeat, sent, 
                           closed, started, finished, threads, log, logState, 
                           aborted, interrupted, stack, me, waitfor, cur, alive, 
                           b, ply, j, trick, ci, played, seat, rq, msg, bn, act, 
-                          myturn, ncalls, declr, tr, i, cardk, isdummy >>
+                          myturn, ncalls, declr, tr, i, cardk, isdummy, fw >>
 
 m_contract == /\ pc[0] = "m_contract"
               /\ toSeat' = [s \in Seats |-> toSeat[s] \o
@@ -960,7 +981,7 @@ m_contract == /\ pc[0] = "m_contract"
                               threads, log, logState, aborted, interrupted, 
                               stack, me, waitfor, cur, alive, b, auc, msg_, j, 
                               ci, played, nc, seat, rq, msg, bn, act, myturn, 
-                              ncalls, declr, tr, i, cardk, isdummy >>
+                              ncalls, declr, tr, i, cardk, isdummy, fw >>
 
 m_trick == /\ pc[0] = "m_trick"
            /\ IF trick <= NTricksM
@@ -971,7 +992,7 @@ m_trick == /\ pc[0] = "m_trick"
                            log, logState, aborted, interrupted, stack, me, 
                            waitfor, cur, alive, b, auc, ply, msg_, j, trick, 
                            ci, played, nc, seat, rq, msg, bn, act, myturn, 
-                           ncalls, declr, tr, i, cardk, isdummy >>
+                           ncalls, declr, tr, i, cardk, isdummy, fw >>
 
 m_sleep_trick == /\ pc[0] = "m_sleep_trick"
                  /\ toSeat' = PutAll(toSeat, MName(ply.leader))
@@ -983,7 +1004,7 @@ m_sleep_trick == /\ pc[0] = "m_sleep_trick"
                                  stack, me, waitfor, cur, alive, b, auc, ply, 
                                  msg_, j, trick, played, nc, seat, rq, msg, bn, 
                                  act, myturn, ncalls, declr, tr, i, cardk, 
-                                 isdummy >>
+                                 isdummy, fw >>
 
 m_cards == /\ pc[0] = "m_cards"
            /\ IF ci < 4
@@ -998,7 +1019,7 @@ m_cards == /\ pc[0] = "m_cards"
                            log, logState, aborted, interrupted, stack, me, 
                            waitfor, cur, alive, b, auc, ply, msg_, j, ci, nc, 
                            seat, rq, msg, bn, act, myturn, ncalls, declr, tr, 
-                           i, cardk, isdummy >>
+                           i, cardk, isdummy, fw >>
 
 m_card == /\ pc[0] = "m_card"
           /\ fromSeat[played] # <<>> \/ interrupted
@@ -1021,7 +1042,7 @@ m_card == /\ pc[0] = "m_card"
                           closed, started, finished, threads, log, logState, 
                           aborted, interrupted, stack, me, waitfor, cur, alive, 
                           b, auc, j, trick, played, nc, seat, rq, msg, bn, act, 
-                          myturn, ncalls, declr, tr, i, cardk, isdummy >>
+                          myturn, ncalls, declr, tr, i, cardk, isdummy, fw >>
 
 m_write == /\ pc[0] = "m_write"
            /\ log' = Append(log, IF A!Contract(auc).bid = NoCall
@@ -1039,7 +1060,7 @@ m_write == /\ pc[0] = "m_write"
                            aborted, interrupted, stack, me, waitfor, cur, 
                            alive, auc, ply, msg_, j, trick, ci, played, nc, 
                            seat, rq, msg, bn, act, myturn, ncalls, declr, tr, 
-                           i, cardk, isdummy >>
+                           i, cardk, isdummy, fw >>
 
 m_close == /\ pc[0] = "m_close"
            /\ IF EndAnnounce = "before-close"
@@ -1054,7 +1075,7 @@ m_close == /\ pc[0] = "m_close"
                            aborted, interrupted, stack, me, waitfor, cur, 
                            alive, b, auc, ply, msg_, j, trick, ci, played, nc, 
                            seat, rq, msg, bn, act, myturn, ncalls, declr, tr, 
-                           i, cardk, isdummy >>
+                           i, cardk, isdummy, fw >>
 
 m_close2 == /\ pc[0] = "m_close2"
             /\ logState' = "closed"
@@ -1064,7 +1085,7 @@ m_close2 == /\ pc[0] = "m_close2"
                             log, aborted, interrupted, stack, me, waitfor, cur, 
                             alive, b, auc, ply, msg_, j, trick, ci, played, nc, 
                             seat, rq, msg, bn, act, myturn, ncalls, declr, tr, 
-                            i, cardk, isdummy >>
+                            i, cardk, isdummy, fw >>
 
 m_join == /\ pc[0] = "m_join"
           /\ IF j <= Len(threads)
@@ -1078,7 +1099,7 @@ m_join == /\ pc[0] = "m_join"
                           log, logState, aborted, interrupted, stack, me, 
                           waitfor, cur, alive, b, auc, ply, msg_, trick, ci, 
                           played, nc, seat, rq, msg, bn, act, myturn, ncalls, 
-                          declr, tr, i, cardk, isdummy >>
+                          declr, tr, i, cardk, isdummy, fw >>
 
 m_raise == /\ pc[0] = "m_raise"
            /\ aborted' = TRUE
@@ -1092,7 +1113,7 @@ m_raise == /\ pc[0] = "m_raise"
                            log, interrupted, stack, me, waitfor, cur, alive, b, 
                            auc, ply, msg_, j, trick, ci, played, nc, seat, rq, 
                            msg, bn, act, myturn, ncalls, declr, tr, i, cardk, 
-                           isdummy >>
+                           isdummy, fw >>
 
 m_done == /\ pc[0] = "m_done"
           /\ TRUE
@@ -1102,7 +1123,7 @@ m_done == /\ pc[0] = "m_done"
                           log, logState, aborted, interrupted, stack, me, 
                           waitfor, cur, alive, b, auc, ply, msg_, j, trick, ci, 
                           played, nc, seat, rq, msg, bn, act, myturn, ncalls, 
-                          declr, tr, i, cardk, isdummy >>
+                          declr, tr, i, cardk, isdummy, fw >>
 
 Main == m_accept \/ m_start \/ m_ev_wait \/ m_ev_wake \/ m_sleep_adm
            \/ m_alive \/ m_ev_clear \/ m_b1 \/ m_open \/ m_board \/ m_deal
@@ -1124,7 +1145,7 @@ op_interrupt == /\ pc[-1] = "op_interrupt"
                                 stack, me, waitfor, cur, alive, b, auc, ply, 
                                 msg_, j, trick, ci, played, nc, seat, rq, msg, 
                                 bn, act, myturn, ncalls, declr, tr, i, cardk, 
-                                isdummy >>
+                                isdummy, fw >>
 
 Operator == op_interrupt
 
@@ -1137,7 +1158,7 @@ p_begin(self) == /\ pc[self] = "p_begin"
                                  interrupted, stack, me, waitfor, cur, alive, 
                                  b, auc, ply, msg_, j, trick, ci, played, nc, 
                                  seat, rq, msg, bn, act, myturn, ncalls, declr, 
-                                 tr, i, cardk, isdummy >>
+                                 tr, i, cardk, isdummy, fw >>
 
 p_conn(self) == /\ pc[self] = "p_conn"
                 /\ IF rq[self].version # 18
@@ -1164,7 +1185,8 @@ p_conn(self) == /\ pc[self] = "p_conn"
                                 logState, aborted, interrupted, stack, me, 
                                 waitfor, cur, alive, b, auc, ply, msg_, j, 
                                 trick, ci, played, nc, seat, rq, msg, bn, act, 
-                                myturn, ncalls, declr, tr, i, cardk, isdummy >>
+                                myturn, ncalls, declr, tr, i, cardk, isdummy, 
+                                fw >>
 
 p_ev_set(self) == /\ pc[self] = "p_ev_set"
                   /\ ev' = [flag |-> TRUE, waiters |-> {}, notified |-> ev.notified \cup ev.waiters]
@@ -1175,7 +1197,7 @@ p_ev_set(self) == /\ pc[self] = "p_ev_set"
                                   stack, me, waitfor, cur, alive, b, auc, ply, 
                                   msg_, j, trick, ci, played, nc, seat, rq, 
                                   msg, bn, act, myturn, ncalls, declr, tr, i, 
-                                  cardk, isdummy >>
+                                  cardk, isdummy, fw >>
 
 p_b1(self) == /\ pc[self] = "p_b1"
               /\ /\ me' = [me EXCEPT ![self] = seat[self]]
@@ -1189,7 +1211,7 @@ p_b1(self) == /\ pc[self] = "p_b1"
                               threads, log, logState, aborted, interrupted, 
                               waitfor, cur, alive, b, auc, ply, msg_, j, trick, 
                               ci, played, nc, seat, rq, msg, bn, act, myturn, 
-                              ncalls, declr, tr, i, cardk, isdummy >>
+                              ncalls, declr, tr, i, cardk, isdummy, fw >>
 
 p_teams(self) == /\ pc[self] = "p_teams"
                  /\ sent' = [sent EXCEPT ![self] = Append(sent[self], MTeams)]
@@ -1200,7 +1222,7 @@ p_teams(self) == /\ pc[self] = "p_teams"
                                  stack, me, waitfor, cur, alive, b, auc, ply, 
                                  msg_, j, trick, ci, played, nc, seat, rq, msg, 
                                  bn, act, myturn, ncalls, declr, tr, i, cardk, 
-                                 isdummy >>
+                                 isdummy, fw >>
 
 p_board(self) == /\ pc[self] = "p_board"
                  /\ sent' = [sent EXCEPT ![self] = sent[self] \o (IF IsFault(bn[self], "ready-deal", seat[self])
@@ -1221,7 +1243,7 @@ p_board(self) == /\ pc[self] = "p_board"
                                  log, logState, aborted, interrupted, waitfor, 
                                  cur, alive, b, auc, ply, msg_, j, trick, ci, 
                                  played, nc, seat, rq, msg, bn, act, myturn, 
-                                 ncalls, declr, tr, i, cardk, isdummy >>
+                                 ncalls, declr, tr, i, cardk, isdummy, fw >>
 
 p_hdr(self) == /\ pc[self] = "p_hdr"
                /\ toSeat[seat[self]] # <<>>
@@ -1245,7 +1267,7 @@ p_hdr(self) == /\ pc[self] = "p_hdr"
                                logState, aborted, interrupted, waitfor, cur, 
                                alive, b, auc, ply, msg_, j, trick, ci, played, 
                                nc, seat, rq, msg, bn, act, myturn, ncalls, 
-                               declr, tr, i, cardk, isdummy >>
+                               declr, tr, i, cardk, isdummy, fw >>
 
 p_hand(self) == /\ pc[self] = "p_hand"
                 /\ toSeat[seat[self]] # <<>>
@@ -1258,7 +1280,7 @@ p_hand(self) == /\ pc[self] = "p_hand"
                                 log, logState, aborted, interrupted, stack, me, 
                                 waitfor, cur, alive, b, auc, ply, msg_, j, 
                                 trick, ci, played, nc, seat, rq, msg, bn, act, 
-                                myturn, declr, tr, i, cardk, isdummy >>
+                                myturn, declr, tr, i, cardk, isdummy, fw >>
 
 p_turn(self) == /\ pc[self] = "p_turn"
                 /\ toSeat[seat[self]] # <<>>
@@ -1266,20 +1288,24 @@ p_turn(self) == /\ pc[self] = "p_turn"
                 /\ toSeat' = [toSeat EXCEPT ![seat[self]] = Tail(toSeat[seat[self]])]
                 /\ IF msg'[self].t = "NULL"
                       THEN /\ pc' = [pc EXCEPT ![self] = "p_po"]
-                           /\ UNCHANGED << fromSeat, sent, closed, ncalls >>
+                           /\ UNCHANGED << fromSeat, sent, closed, ncalls, fw >>
                       ELSE /\ IF msg'[self].t \in {"ILLEGAL", "ERROR"}
                                  THEN /\ sent' = [sent EXCEPT ![self] = Append(sent[self], MErr(msg'[self].t))]
                                       /\ closed' = [closed EXCEPT ![self] = TRUE]
                                       /\ pc' = [pc EXCEPT ![self] = "p_end"]
-                                      /\ UNCHANGED << fromSeat, ncalls >>
+                                      /\ UNCHANGED << fromSeat, ncalls, fw >>
                                  ELSE /\ ncalls' = [ncalls EXCEPT ![self] = ncalls[self] + 1]
                                       /\ IF msg'[self].seat = seat[self]
                                             THEN /\ fromSeat' = [fromSeat EXCEPT ![seat[self]] = Append(fromSeat[seat[self]],
                                                                                                         IF IsFault(bn[self], "auction", ncalls'[self]) THEN MBad
                                                                                                         ELSE MCall(seat[self], Script[bn[self]].calls[ncalls'[self]]))]
-                                                 /\ pc' = [pc EXCEPT ![self] = "p_turn"]
+                                                 /\ IF RelayImpl = "seat"
+                                                       THEN /\ fw' = [fw EXCEPT ![self] = 1]
+                                                            /\ pc' = [pc EXCEPT ![self] = "p_fwd"]
+                                                       ELSE /\ pc' = [pc EXCEPT ![self] = "p_turn"]
+                                                            /\ fw' = fw
                                             ELSE /\ pc' = [pc EXCEPT ![self] = "p_relay"]
-                                                 /\ UNCHANGED fromSeat
+                                                 /\ UNCHANGED << fromSeat, fw >>
                                       /\ UNCHANGED << sent, closed >>
                 /\ UNCHANGED << table, backlog, ev, bar, evSync, evSeat, 
                                 started, finished, threads, log, logState, 
@@ -1298,7 +1324,25 @@ p_relay(self) == /\ pc[self] = "p_relay"
                                  log, logState, aborted, interrupted, stack, 
                                  me, waitfor, cur, alive, b, auc, ply, msg_, j, 
                                  trick, ci, played, nc, seat, rq, msg, bn, act, 
-                                 myturn, ncalls, declr, tr, i, cardk, isdummy >>
+                                 myturn, ncalls, declr, tr, i, cardk, isdummy, 
+                                 fw >>
+
+p_fwd(self) == /\ pc[self] = "p_fwd"
+               /\ IF fw[self] <= 3
+                     THEN /\ toSeat' = [toSeat EXCEPT ![(seat[self] + fw[self]) % 4] = Append(toSeat[(seat[self] + fw[self]) % 4],
+                                                                                              IF IsFault(bn[self], "auction", ncalls[self]) THEN MBad
+                                                                                              ELSE MCall(seat[self], Script[bn[self]].calls[ncalls[self]]))]
+                          /\ fw' = [fw EXCEPT ![self] = fw[self] + 1]
+                          /\ pc' = [pc EXCEPT ![self] = "p_fwd"]
+                     ELSE /\ pc' = [pc EXCEPT ![self] = "p_turn"]
+                          /\ UNCHANGED << toSeat, fw >>
+               /\ UNCHANGED << table, backlog, ev, bar, evSync, evSeat, 
+                               fromSeat, sent, closed, started, finished, 
+                               threads, log, logState, aborted, interrupted, 
+                               stack, me, waitfor, cur, alive, b, auc, ply, 
+                               msg_, j, trick, ci, played, nc, seat, rq, msg, 
+                               bn, act, myturn, ncalls, declr, tr, i, cardk, 
+                               isdummy >>
 
 p_po(self) == /\ pc[self] = "p_po"
               /\ toSeat[seat[self]] # <<>>
@@ -1313,7 +1357,7 @@ p_po(self) == /\ pc[self] = "p_po"
                               stack, me, waitfor, cur, alive, b, auc, ply, 
                               msg_, j, trick, ci, played, nc, seat, rq, bn, 
                               act, myturn, ncalls, declr, tr, i, cardk, 
-                              isdummy >>
+                              isdummy, fw >>
 
 p_decl(self) == /\ pc[self] = "p_decl"
                 /\ toSeat[seat[self]] # <<>>
@@ -1326,7 +1370,7 @@ p_decl(self) == /\ pc[self] = "p_decl"
                                 threads, log, logState, aborted, interrupted, 
                                 stack, me, waitfor, cur, alive, b, auc, ply, 
                                 msg_, j, trick, ci, played, nc, seat, rq, msg, 
-                                bn, act, myturn, ncalls, i, cardk, isdummy >>
+                                bn, act, myturn, ncalls, i, cardk, isdummy, fw >>
 
 p_leader(self) == /\ pc[self] = "p_leader"
                   /\ toSeat[seat[self]] # <<>>
@@ -1340,7 +1384,7 @@ p_leader(self) == /\ pc[self] = "p_leader"
                                   stack, me, waitfor, cur, alive, b, auc, ply, 
                                   msg_, j, trick, ci, played, nc, seat, rq, 
                                   msg, bn, myturn, ncalls, declr, tr, cardk, 
-                                  isdummy >>
+                                  isdummy, fw >>
 
 p_cardloop(self) == /\ pc[self] = "p_cardloop"
                     /\ IF i[self] < 4
@@ -1368,7 +1412,8 @@ p_cardloop(self) == /\ pc[self] = "p_cardloop"
                                     log, logState, aborted, interrupted, stack, 
                                     me, waitfor, cur, alive, b, auc, ply, msg_, 
                                     j, trick, ci, played, nc, seat, rq, msg, 
-                                    bn, act, myturn, ncalls, declr, i, isdummy >>
+                                    bn, act, myturn, ncalls, declr, i, isdummy, 
+                                    fw >>
 
 p_after(self) == /\ pc[self] = "p_after"
                  /\ act' = [act EXCEPT ![self] = Left(act[self])]
@@ -1381,7 +1426,7 @@ p_after(self) == /\ pc[self] = "p_after"
                                  interrupted, stack, me, waitfor, cur, alive, 
                                  b, auc, ply, msg_, j, trick, ci, played, nc, 
                                  seat, rq, msg, bn, myturn, ncalls, declr, tr, 
-                                 i, cardk, isdummy >>
+                                 i, cardk, isdummy, fw >>
 
 p_dummy(self) == /\ pc[self] = "p_dummy"
                  /\ toSeat[seat[self]] # <<>>
@@ -1393,7 +1438,8 @@ p_dummy(self) == /\ pc[self] = "p_dummy"
                                  log, logState, aborted, interrupted, stack, 
                                  me, waitfor, cur, alive, b, auc, ply, msg_, j, 
                                  trick, ci, played, nc, seat, rq, msg, bn, act, 
-                                 myturn, ncalls, declr, tr, i, cardk, isdummy >>
+                                 myturn, ncalls, declr, tr, i, cardk, isdummy, 
+                                 fw >>
 
 p_next(self) == /\ pc[self] = "p_next"
                 /\ i' = [i EXCEPT ![self] = i[self] + 1]
@@ -1404,7 +1450,7 @@ p_next(self) == /\ pc[self] = "p_next"
                                 interrupted, stack, me, waitfor, cur, alive, b, 
                                 auc, ply, msg_, j, trick, ci, played, nc, seat, 
                                 rq, msg, bn, act, myturn, ncalls, declr, tr, 
-                                cardk, isdummy >>
+                                cardk, isdummy, fw >>
 
 p_cardrelay(self) == /\ pc[self] = "p_cardrelay"
                      /\ toSeat[seat[self]] # <<>>
@@ -1418,7 +1464,7 @@ p_cardrelay(self) == /\ pc[self] = "p_cardrelay"
                                      alive, b, auc, ply, msg_, j, trick, ci, 
                                      played, nc, seat, rq, msg, bn, act, 
                                      myturn, ncalls, declr, tr, i, cardk, 
-                                     isdummy >>
+                                     isdummy, fw >>
 
 p_status(self) == /\ pc[self] = "p_status"
                   /\ toSeat[seat[self]] # <<>>
@@ -1436,7 +1482,8 @@ p_status(self) == /\ pc[self] = "p_status"
                                   log, logState, aborted, interrupted, stack, 
                                   me, waitfor, cur, alive, b, auc, ply, msg_, 
                                   j, trick, ci, played, nc, seat, rq, act, 
-                                  myturn, ncalls, declr, tr, i, cardk, isdummy >>
+                                  myturn, ncalls, declr, tr, i, cardk, isdummy, 
+                                  fw >>
 
 p_ev_set_rej(self) == /\ pc[self] = "p_ev_set_rej"
                       /\ ev' = [flag |-> TRUE, waiters |-> {}, notified |-> ev.notified \cup ev.waiters]
@@ -1448,7 +1495,7 @@ p_ev_set_rej(self) == /\ pc[self] = "p_ev_set_rej"
                                       cur, alive, b, auc, ply, msg_, j, trick, 
                                       ci, played, nc, seat, rq, msg, bn, act, 
                                       myturn, ncalls, declr, tr, i, cardk, 
-                                      isdummy >>
+                                      isdummy, fw >>
 
 p_end(self) == /\ pc[self] = "p_end"
                /\ finished' = [finished EXCEPT ![self] = TRUE]
@@ -1458,15 +1505,16 @@ p_end(self) == /\ pc[self] = "p_end"
                                logState, aborted, interrupted, stack, me, 
                                waitfor, cur, alive, b, auc, ply, msg_, j, 
                                trick, ci, played, nc, seat, rq, msg, bn, act, 
-                               myturn, ncalls, declr, tr, i, cardk, isdummy >>
+                               myturn, ncalls, declr, tr, i, cardk, isdummy, 
+                               fw >>
 
 Req(self) == p_begin(self) \/ p_conn(self) \/ p_ev_set(self) \/ p_b1(self)
                 \/ p_teams(self) \/ p_board(self) \/ p_hdr(self)
                 \/ p_hand(self) \/ p_turn(self) \/ p_relay(self)
-                \/ p_po(self) \/ p_decl(self) \/ p_leader(self)
-                \/ p_cardloop(self) \/ p_after(self) \/ p_dummy(self)
-                \/ p_next(self) \/ p_cardrelay(self) \/ p_status(self)
-                \/ p_ev_set_rej(self) \/ p_end(self)
+                \/ p_fwd(self) \/ p_po(self) \/ p_decl(self)
+                \/ p_leader(self) \/ p_cardloop(self) \/ p_after(self)
+                \/ p_dummy(self) \/ p_next(self) \/ p_cardrelay(self)
+                \/ p_status(self) \/ p_ev_set_rej(self) \/ p_end(self)
 
 (* Allow infinite stuttering to prevent deadlock on termination. *)
 Terminating == /\ \A self \in ProcSet: pc[self] = "Done"
